@@ -164,6 +164,30 @@ def cell_expr(rng, cell, b):
         if b:
             return {"cls": "BatchRepeat", "base": kron(rng, [1] * len(b), [2, 3]), "rep": list(b)}
         return {"cls": "BatchRepeat", "base": kron(rng, [], [2, 3]), "rep": [2]}
+    if c == "MixIdentExact3":
+        # as MixIdent3 but the middle member is EXACTLY c*I: its first Lanczos residual is exactly 0 (known finding)
+        mem = torch.stack([spd(rng, [], 4), rng.uniform(1.5, 3.0) * torch.eye(4, dtype=F64), spd(rng, [], 4)])
+        return {"cls": "Dense", "t": T(mem)}
+    if c in ("MixIdent3", "BlockMixIdent"):
+        # a batch (resp. the blocks of a BlockDiag operator) in which ONE member is numerically a multiple of the identity
+        # (off-diagonals 1e-10: its first Lanczos residual is below the 1e-6 breakdown threshold) next to generic members
+        # with distinct eigenvalues: Lanczos runs the members in lock-step and must not stop while any member goes on
+        E = gauss(rng, 4, 4)
+        near = rng.uniform(1.5, 3.0) * torch.eye(4, dtype=F64) + 1e-10 * (E + E.mT) / 2
+        mem = torch.stack([spd(rng, [], 4), near, spd(rng, [], 4)])
+        d = {"cls": "Dense", "t": T(mem)}
+        return d if c == "MixIdent3" else {"cls": "BlockDiag", "base": d}
+    if c in ("IllCondDense4", "IllCondKron23"):
+        # positive definite, condition number ~1e8, every eigenvalue far above the absolute clamp 1e-7 of root_inv_decomposition
+        def ill(bb, lams):
+            Q, _ = torch.linalg.qr(gauss(rng, *bb, len(lams), len(lams)))
+            nb = int(math.prod(bb)) if bb else 1
+            lam = torch.tensor([[l * rng.uniform(0.8, 1.25) for l in lams] for _ in range(nb)], dtype=F64).reshape(*bb, len(lams))
+            A = Q @ torch.diag_embed(lam) @ Q.mT
+            return {"cls": "Dense", "t": T((A + A.mT) / 2)}
+        if c == "IllCondDense4":
+            return ill(b, [1e-3, 0.1, 10.0, 1e5])
+        return {"cls": "Kron", "ops": [ill(b, [1e-2, 1e2]), ill(b, [1e-2, 1.0, 1e2])]}
     if c in ("MixDense3", "MixDense2"):
         # a batch MIXING well-conditioned p.d. members with an exactly singular PSD member (integer rank-one matrix: the
         # second pivot is exactly 0 for LAPACK and for the model kernel alike): member-wise jitter of psd_safe_cholesky
@@ -191,6 +215,10 @@ TRI_CELLS = ["TriL3", "TriU3"]
 FIXED_BATCH = {"RepeatBatch": [()], "ConstMulScalar": [(), (2,)]}
 # batches mixing p.d. and singular members: cell -> (batch shape, indices of the singular members)
 MIX_CELLS = {"MixDense3": ((3,), [1]), "MixDense2": ((2,), [0])}
+# cells whose batch is part of the cell (cell_expr ignores the batch argument)
+BUILTIN_BATCH = {"MixDense3": (3,), "MixDense2": (2,), "MixIdent3": (3,), "BlockMixIdent": (), "MixIdentExact3": (3,)}
+# ill-conditioned p.d. operators: direct (non-Krylov) routes only
+ILL_CELLS = ["IllCondDense4", "IllCondKron23"]
 # operators queried through histories that SHARE them with composites built by add_jitter (shared memoize caches)
 HIST_CELLS = ["Dense3", "Dense5", "Toeplitz4", "Sum4", "Kron23", "Kron222", "BlockDiag3x2", "ConstMulDense", "AddedDiagC",
               "KPADconst"]
@@ -330,6 +358,33 @@ def enumerate_grid(quick=True):
             for o in (1, 2):
                 for q in [("root", None, False), ("root_inv", None, False), ("cholesky", None, False), ("svd", None, False)]:
                     add(cell, b, q, kind="catrows", o=o)
+    # H'. cat_rows on a Kronecker product ABOVE max_cholesky_size (factors below it): cat_rows combines the Kronecker override's
+    #     root and inverse root, which must be each other's inverse transposes
+    for cell in ("Kron23", "Kron222"):
+        for o in (1, 2):
+            for q in [("root", None, False), ("root_inv", None, False)]:
+                add(cell, (), q, mcs=3, kind="catrows", o=o)
+    # I. Lanczos in lock-step over a batch / over blocks one of which is numerically c*I
+    for cell in ("MixIdent3", "BlockMixIdent"):
+        for q in [("root", "lanczos", False), ("root_inv", "lanczos", False), ("diag", "lanczos", False)]:
+            add(cell, BUILTIN_BATCH[cell], q)
+        for q in [("root", None, False), ("root_inv", None, False), ("diag", None, False)]:
+            add(cell, BUILTIN_BATCH[cell], q, mcs=0)
+    for q in [("root", "lanczos", False), ("root_inv", "lanczos", False)]:
+        add("MixIdentExact3", (3,), q)
+    # J. ill-conditioned p.d. operators (condition number 1e8, all eigenvalues >> 1e-7) on the direct routes, incl. the default
+    #    route after a diagonalization() / logdet() has been cached on the object
+    for cell in ILL_CELLS:
+        for b in [(), (2,)]:
+            for q in [("root_inv", "symeig", False), ("root_inv", "diagonalization", False), ("root_inv", "svd", False),
+                      ("root_inv", "cholesky", False), ("root_inv", None, False), ("root", "symeig", False), ("root", "svd", False),
+                      ("root", "cholesky", False), ("root", None, False), ("eigh", None, False), ("svd", None, False),
+                      ("cholesky", None, False), ("diag", None, False)]:
+                add(cell, b, q)
+            for q in [("root_inv", None, False), ("root", None, False)]:
+                add(cell, b, q, pre=[{"op": "diag", "method": None}])
+                if cell == "IllCondKron23":
+                    add(cell, b, q, pre=[{"op": "logdet", "method": None}])
     if not quick:
         # thorough: every cell x every query at every batch shape, settings on both sides
         for cell in PD_CELLS:
@@ -358,7 +413,7 @@ def enumerate_grid(quick=True):
 
 def instantiate(rng, item):
     kind = item.get("kind", "plain")
-    expr = cell_expr(rng, item["cell"], [] if kind == "mixed" else item["batch"])
+    expr = cell_expr(rng, item["cell"], [] if item["cell"] in BUILTIN_BATCH else item["batch"])
     case = dict(item)
     case["expr"] = expr
     if kind == "catrows":
